@@ -494,6 +494,101 @@ impl ArcCC {
     }
 }
 
+/// Verification hook: a read-only copy of the private loss-detection / congestion state.
+#[cfg(genmeta_gm_quic_verif)]
+#[derive(Debug, Clone)]
+pub struct VerifSentPacket {
+    pub packet_number: u64,
+    pub time_sent: Instant,
+    pub ack_eliciting: bool,
+    pub in_flight: bool,
+    pub sent_bytes: usize,
+    /// 0 = in flight (outstanding), 1 = acknowledged, 2 = declared lost
+    pub state: u8,
+}
+
+#[cfg(genmeta_gm_quic_verif)]
+#[derive(Debug, Clone)]
+pub struct VerifSpace {
+    pub largest_acked_packet: Option<u64>,
+    pub time_of_last_ack_eliciting_packet: Option<Instant>,
+    pub loss_time: Option<Instant>,
+    pub sent_packets: Vec<VerifSentPacket>,
+}
+
+#[cfg(genmeta_gm_quic_verif)]
+#[derive(Debug, Clone)]
+pub struct VerifSnapshot {
+    pub max_datagram_size: u64,
+    pub cwnd: u64,
+    pub ssthresh: u64,
+    pub bytes_in_flight: u64,
+    pub recovery_start: Option<Instant>,
+    pub pto_count: u32,
+    pub loss_detection_timer: Option<Instant>,
+    pub latest_rtt: Duration,
+    pub smoothed_rtt: Duration,
+    pub rttvar: Duration,
+    pub min_rtt: Duration,
+    pub has_rtt_sample: bool,
+    pub need_send_ack_eliciting_packets: [usize; Epoch::count()],
+    pub spaces: [VerifSpace; Epoch::count()],
+}
+
+#[cfg(genmeta_gm_quic_verif)]
+impl ArcCC {
+    /// Read-only; never changes the state of the controller (in particular not the pacer).
+    pub fn verif_snapshot(&self) -> VerifSnapshot {
+        let guard = self.0.lock().unwrap();
+        let (cwnd, ssthresh, bytes_in_flight, recovery_start) = guard.algorithm.verif_state();
+        let (latest_rtt, smoothed_rtt, rttvar, min_rtt, has_rtt_sample) = guard.rtt.verif_state();
+        let space = |epoch: Epoch| {
+            let space = &guard.packet_spaces[epoch];
+            VerifSpace {
+                largest_acked_packet: space.largest_acked_packet,
+                time_of_last_ack_eliciting_packet: space.time_of_last_ack_eliciting_packet,
+                loss_time: space.loss_time,
+                sent_packets: space
+                    .sent_packets
+                    .iter()
+                    .map(|p| VerifSentPacket {
+                        packet_number: p.packet_number,
+                        time_sent: p.time_sent,
+                        ack_eliciting: p.ack_eliciting,
+                        in_flight: p.count_for_cc,
+                        sent_bytes: p.sent_bytes,
+                        state: match p.state {
+                            crate::packets::State::Inflight => 0,
+                            crate::packets::State::Acked => 1,
+                            crate::packets::State::Retransmitted => 2,
+                        },
+                    })
+                    .collect(),
+            }
+        };
+        VerifSnapshot {
+            max_datagram_size: guard.path_status.mtu() as u64,
+            cwnd,
+            ssthresh,
+            bytes_in_flight,
+            recovery_start,
+            pto_count: guard.pto_count,
+            loss_detection_timer: guard.loss_detection_timer,
+            latest_rtt,
+            smoothed_rtt,
+            rttvar,
+            min_rtt,
+            has_rtt_sample,
+            need_send_ack_eliciting_packets: guard.need_send_ack_eliciting_packets,
+            spaces: [
+                space(Epoch::Initial),
+                space(Epoch::Handshake),
+                space(Epoch::Data),
+            ],
+        }
+    }
+}
+
 impl super::Transport for ArcCC {
     fn do_tick(&self) -> Result<(), TooManyPtos> {
         let now = Instant::now();
